@@ -300,6 +300,70 @@ def gen_project(rng, size=1.0, risky=False, typey=False):
     return {"config": gen_config(rng), "files": files}
 
 
+def gen_hierarchy(rng):
+    """Round 6: a project that is mostly a **type hierarchy** - one or two modules, each with two to four derived
+    types, every type after the first extending an earlier one with p = 0.8 (chains and siblings), every type with
+    0-2 components and 0-2 type-bound procedures (public / private, spelled or defaulted; unique names, so nothing is
+    overridden and every non-private binding is inherited down the chain), own `display:` metadata on modules (30 %)
+    and types (30 %), documented / undocumented types and bindings.  The summary card of a type lists inherited
+    bindings next to its own; their names link into the page of the *declaring* type."""
+    g = Gen(rng, 1.0, False, False)
+    f = g.new("file", "public")
+    g.maybe_doc(f, 0.5)
+    for _ in range(rng.choice([1, 1, 2])):
+        m = g.new("module", "public")
+        g.maybe_doc(m, 0.85)
+        g.maybe_disp(m, 0.3)
+        m["default"] = rng.choice([None, "private", "public"])
+        default = m["default"] or "public"
+
+        def pick():
+            if rng.random() < 0.7:
+                return rng.choice(["public", "private"]), True
+            return default, False
+
+        procs = []
+        for _ in range(rng.randint(1, 2)):
+            perm, ex = pick()
+            sb = g.new("subroutine", perm, explicit=ex)
+            g.maybe_doc(sb, 0.85)
+            a = g.new("arg", default, explicit=False)
+            g.maybe_doc(a, 0.6)
+            sb["children"] = [a]
+            procs.append(sb)
+        types = []
+        for _ in range(rng.randint(2, 4)):
+            perm, ex = pick()
+            t = g.new("type", perm, explicit=ex)
+            g.maybe_doc(t, 0.8)
+            g.maybe_disp(t, 0.3)
+            if types and rng.random() < 0.8:
+                par = rng.choice(types)
+                t["ext"] = par["id"]
+                if rng.random() < 0.4:
+                    # the extending type and the extended one on different sides of `display`
+                    t["perm"], t["explicit"] = ("public" if par["perm"] == "private" else "private"), True
+            for _ in range(rng.randint(0, 2)):
+                t["children"].append(g.variable("public", ("public", "private"), kind="component"))
+            for _ in range(rng.randint(0, 2)):
+                if rng.random() < 0.7:
+                    b = g.new("boundproc", rng.choice(["public", "public", "private"]), explicit=True)
+                else:
+                    b = g.new("boundproc", "public", explicit=False)
+                g.maybe_doc(b)
+                b["refs"] = [rng.choice(procs)["id"]]
+                t["children"].append(b)
+            types.append(t)
+        m["children"] = types + procs
+        f["children"].append(m)
+    for e in g.all:
+        e["nolink"] = True
+    cfg = gen_config(rng)
+    if rng.random() < 0.4:
+        cfg["display"] = [rng.choice(["public", "private"])]
+    return {"config": cfg, "files": [f]}
+
+
 # ---------------------------------------------------------------------------- round 3: more entity kinds
 
 UNIT_SCOPES = ("module", "submodule", "program")
